@@ -114,6 +114,7 @@ def run_pairs(R, cases, M, judge=True):
         if h[:2] == ["true", "true"]: R.count("operands_meeting_theorem_hypotheses")
         elif h[:1] == ["true"]: R.count("operands_good_but_not_sorted")
         if h[2:3] == ["false"]: R.count("operands_with_a_degenerate_member")
+        if h[3:4] == ["true"]: R.count("operands_whose_members_are_in_order_and_apart(union_text_roundtrip_hypothesis)")
         elif h == ["badoperand"]: R.count("operands_not_parsed_by_model")
         else: R.count("operands_outside_hypotheses(local_label_or_improper)")
     # the hypotheses of the difference theorem are about the pair (the bounds of both operands mutually regular)
